@@ -664,7 +664,17 @@ def _gm_raise_cond(self, product_paths):
     path = lp[1].current
     row_key = tm.Select(lp[0].seq.cursor.key_arrays["nglob"], lp[0].i, INT)  # the nglob row being tested
     glob_axioms(db, path, row_key)
-    return wrap_bool(tm.And(_gm_member(product_paths, path), View(db).globmatch(path)))
+    # C02 (the text of the rejection does not depend on the arrival order): the path named in the message is the
+    # *least* product path the registration matches -- the one register_nglob names when the glob arrives second
+    # (ORDER BY node.label LIMIT 1).  At the arbitrary product path p0: if the registration matches it, it does not come
+    # before the reported path in the ascending order of the product paths.
+    from vc import vcrt
+
+    p0 = c.data["ghost"].p0
+    regex_cur = lp[0].seq.elem(lp[0].i)[2]
+    least = tm.Implies(tm.And(_gm_member(product_paths, p0), fullmatch_t(regex_cur, p0)),
+                       tm.Ge(vcrt.index_of(product_paths, p0), I(lp[1].i)))
+    return wrap_bool(tm.And(_gm_member(product_paths, path), View(db).globmatch(path), least))
 
 
 def _mag_complete_keys(args):
@@ -712,6 +722,7 @@ class raise_if_glob_match:
     modifies = []
     loops = {0: LoopSpec(forall=dict(j=ty.Int), invariant=_gm_inv0),
              1: LoopSpec(invariant=_gm_inv1)}
+    partial_props = {"C02": ["loop1", "raise.GraphError"]}
 
     @staticmethod
     def ensures(self, product_paths, ghost):
